@@ -375,6 +375,17 @@ CLAIMED["C12"]["text"] += (" The CLI glue (eval_cost's expression grammar, read_
 PENDING = "check not built yet in this round (planned: Lean 4 model + proof + correspondence, see DESIGN.md section 7)"
 
 
+# ---- sixth wave: C12 bridge, histories in every solver check, presentations -----------------------------------------
+CLAIMED["C12"]["text"] += (" The cost line and `all` >= `any` are now also THEOREMS without interface hypotheses (Properties/C12Bridge.lean: "
+    "embedding of solver solutions into the written dictionaries, evaluated cost of the read-back object = totalCost; "
+    "C12_cost_line_thl/_exh/_spfs/_uspfs, C12_all_superset_any_*), the embedding and the evaluator being driven against the real "
+    "to_dict() / from_dict().cost(); the JSON text itself is the remaining hypothesis unless Properties/C12Json.lean is present.")
+for _p in ("C01", "C02", "C03", "C04", "C05", "C10"):
+    CLAIMED[_p]["text"] += (" The correspondence also replays histories on ONE input object (costs changed in place between calls) and "
+        "builds its inputs under varying presentations (ancestors unnamed / all alike, multi-character family names, float inf).")
+CLAIMED["C17"]["text"] += " Trees of every stream are named in four ways (unique / unnamed / all alike / two letters): names are not part of the definitions."
+
+
 def main():
     checks = []
     for pid in PROPS:
